@@ -21,17 +21,29 @@ RULE = ('operand pairs: L x qd x independent bond profiles x every sector-consis
 BUDGET = {'quick': 400, 'thorough': 3600}
 DTYPES = ['cc', 'rr', 'rc', 'cr']
 # dtypes varying from site to site within one operand (see _site_dtypes)
-DTYPES_SITE = ['mr', 'rm', 'mm', 'wm']
+DTYPES_SITE = ['mr', 'rm', 'mm', 'wm', 'fv', 'vf']
 QDS = [[0, 1], [1, -1], [0, 0], [0]]
 
 
 def _site_dtypes(A, code):
     """
     Per-site dtypes of an operand: 'r' all real, 'c' all complex, 'm' real boundary tensors with complex interior,
-    'w' complex first tensor and real elsewhere (True is read as 'r', False as 'c').
+    'w' complex first tensor and real elsewhere; memory layout: 'f' complex column-major, 'v' complex strided views
+    (True is read as 'r', False as 'c').
     """
     code = {True: 'r', False: 'c'}.get(code, code)
     L = len(A)
+    if code == 'f':
+        # complex entries, column-major storage
+        return [np.asfortranarray(a) for a in A]
+    if code == 'v':
+        # complex entries, every tensor a strided (non-contiguous) view into a larger buffer
+        out = []
+        for a in A:
+            big = np.zeros(a.shape[:-1] + (2 * a.shape[-1],), dtype=a.dtype)
+            big[..., ::2] = a
+            out.append(big[..., ::2])
+        return out
     real_site = {'r': [True] * L, 'c': [False] * L,
                  'm': [i in (0, L - 1) for i in range(L)],
                  'w': [i != 0 for i in range(L)]}[code]
@@ -312,17 +324,19 @@ def spaces(tier, seed):
         Space('mps_pairs', core.chunked(_mps_pair_cases(Ls, QDS, Ds), 400), run_case=run_case, sig=sig,
               bounds={'L': Ls, 'qd': QDS, 'D': Ds, 'dtypes': DTYPES, 'ops': ['+', '-']}),
         Space('mps_pairs_site_dtypes', core.chunked(itertools.chain(_mps_pair_cases([3], QDS[:2] if tier == 'quick' else QDS, [1, 2],
-                                                                                   ['mr', 'wm'] if tier == 'quick' else DTYPES_SITE),
+                                                                                   ['mr', 'wm', 'fv'] if tier == 'quick' else DTYPES_SITE),
                                                                    _mps_pair_cases([] if tier == 'quick' else [4], QDS[:1], [1, 2], ['mr', 'wm'])), 400), run_case=run_case, sig=sig,
               bounds={'L': '3 (quick) / 3,4 (thorough)', 'D': [1, 2], 'dtypes': "per-site: m = real boundary tensors, complex interior; w = complex first tensor only"}),
         Space('mpo_pairs', core.chunked(_mpo_pair_cases(Lmpo, qds_mpo, [1, 2]), 200), run_case=run_case, sig=sig,
               bounds={'L': Lmpo, 'qd': qds_mpo, 'D': [1, 2], 'dtypes': DTYPES, 'ops': ['+', '-', '@', 'as_matrix dense/sparse']}),
         Space('apply', core.chunked(_apply_cases(Lmpo, qds_mpo, [1, 2]), 300), run_case=run_case, sig=sig,
               bounds={'L': Lmpo, 'qd': qds_mpo, 'D': [1, 2], 'dtypes': DTYPES}),
-        Space('mpo_pairs_L3', core.chunked(_mpo_pair_cases([3], [[0, 1]] if tier == 'quick' else qds_mpo, [1, 2], ['rc', 'mr'] if tier == 'quick' else DTYPES + DTYPES_SITE), 200),
-              run_case=run_case, sig=sig, bounds={'L': [3], 'D': [1, 2], 'dtypes': 'rc/cr and per-site mr (quick) / all + per-site mr, rm, mm, wm (thorough)'}),
-        Space('apply_L3', core.chunked(_apply_cases([3], [[0, 1]] if tier == 'quick' else qds_mpo, [1, 2], ['cr', 'mr'] if tier == 'quick' else DTYPES + DTYPES_SITE), 300),
-              run_case=run_case, sig=sig, bounds={'L': [3], 'D': [1, 2], 'dtypes': 'rc/cr and per-site mr (quick) / all + per-site mr, rm, mm, wm (thorough)'}),
+        Space('mpo_pairs_L3', core.chunked(itertools.chain(_mpo_pair_cases([3], [[0, 1]], [1, 2], ['rc']), _mpo_pair_cases([3], [[0, 1]], [2], ['mr', 'vf'])) if tier == 'quick'
+                                           else _mpo_pair_cases([3], qds_mpo, [1, 2], DTYPES + DTYPES_SITE), 200),
+              run_case=run_case, sig=sig, bounds={'L': [3], 'D': [1, 2], 'dtypes': 'quick: rc / cr on D in {1,2}, per-site and layout codes mr, vf / fv on D = 2; thorough: all uniform + mr, rm, mm, wm, fv, vf on D in {1,2}'}),
+        Space('apply_L3', core.chunked(itertools.chain(_apply_cases([3], [[0, 1]], [1, 2], ['cr']), _apply_cases([3], [[0, 1]], [2], ['mr', 'fv'])) if tier == 'quick'
+                                       else _apply_cases([3], qds_mpo, [1, 2], DTYPES + DTYPES_SITE), 300),
+              run_case=run_case, sig=sig, bounds={'L': [3], 'D': [1, 2], 'dtypes': 'quick: rc / cr on D in {1,2}, per-site and layout codes mr, vf / fv on D = 2; thorough: all uniform + mr, rm, mm, wm, fv, vf on D in {1,2}'}),
         Space('chained', core.chunked(_chain_cases([1, 2, 3], [[0, 1], [0, 0]]), 100), run_case=run_case, sig=sig,
               bounds={'L': [1, 2, 3], 'expressions': ['((A+B)@C) psi', '(psi+phi)-phi']}),
         Space('identity', core.chunked(_identity_cases(tier), 100), run_case=run_case, sig=sig,
